@@ -4,6 +4,7 @@
 package vh
 
 import (
+	"runtime"
 	"bytes"
 	"crypto/sha256"
 	"encoding/json"
@@ -323,3 +324,31 @@ func Now() time.Time { return time.Now() }
 // Concretely returns c; the executor forks when c is not decided by the path (so that the harness
 // can branch on it with ordinary Go control flow at a place of its choosing).
 func Concretely(c bool) bool { return c }
+
+// Bytes returns n arbitrary bytes.
+func Bytes(name string, n int) []byte {
+	out := make([]byte, n)
+	for i := range out {
+		out[i] = NondetU8(name)
+	}
+	return out
+}
+
+var allocBase uint64
+
+// SetAllocView declares that the harness supplies fewer than n input bytes/elements (the executor
+// represents larger symbolic allocations by their first n+1 elements) and starts the accounting
+// of allocated bytes.
+func SetAllocView(n int) {
+	var m runtime.MemStats
+	runtime.ReadMemStats(&m)
+	allocBase = m.TotalAlloc
+}
+
+// AllocatedBytes: symbolically the largest single make() seen since SetAllocView, in bytes;
+// natively everything allocated since then (an upper bound of it).
+func AllocatedBytes() int64 {
+	var m runtime.MemStats
+	runtime.ReadMemStats(&m)
+	return int64(m.TotalAlloc - allocBase)
+}
